@@ -12,6 +12,7 @@ CONSTANTS
   MaxPush = 2
   Faults = {}
   RespShapes <- RS_sub12
+  Abandon = FALSE
   MaxArr = 1
   ArrMenu = {}
 INIT Init
